@@ -2,6 +2,7 @@ package main
 
 import (
 	"encoding/hex"
+	"errors"
 	"fmt"
 	"runtime"
 	"strings"
@@ -275,6 +276,69 @@ func runC05(c *runCtx) {
 			res.stat("parse-error-at-inserted-token")
 		} else {
 			res.stat("parse-error-at-earlier-token")
+		}
+	}
+	// (3b) recovery mode: every error of a script is located at the offending token of its own statement — the error's own
+	// line / column (ParseError), the structured error it wraps, and the token it names by index agree
+	{
+		goods := []string{"SELECT a FROM t", "DELETE FROM t WHERE a = 1", "SELECT COUNT(*) FROM t GROUP BY a"}
+		bads := []struct {
+			text string
+			off  int // byte offset of the offending token inside text
+		}{{"FOO bar", 0}, {") x", 0}, {"42", 0}, {"x y z", 0}, {"= 1", 0}, {"SELECT a FROM WHERE b = 1", 14}, {"SELECT a, , b FROM t", 10}, {"INSERT INTO VALUES (1)", 12},
+			{"SELECT a FROM t WHERE (b = 1", -1}, {"UPDATE SET a = 1", 7}, {"SELECT * FROM t WHERE a IN (1, 2", -1}}
+		for r := 0; r < c.n(300, 6000); r++ {
+			k := 2 + rb.Intn(4)
+			var lines []string
+			type exp struct{ line, col int }
+			var want []exp
+			for i := 0; i < k; i++ {
+				pad := strings.Repeat(" ", rb.Intn(5))
+				if rb.Chance(45) {
+					b := bads[rb.Intn(len(bads))]
+					lines = append(lines, pad+b.text+" ;")
+					if b.off >= 0 {
+						want = append(want, exp{len(lines), len(pad) + b.off + 1})
+					} else {
+						want = append(want, exp{len(lines), -1})
+					}
+				} else {
+					lines = append(lines, pad+goods[rb.Intn(len(goods))]+" ;")
+				}
+				if rb.Chance(30) {
+					lines = append(lines, "-- a comment line", "")
+				}
+			}
+			script := strings.Join(lines, "\n")
+			res.count("recovery-loc|"+script, true)
+			_, errs := gosqlx.ParseWithRecovery(script)
+			wit := map[string]any{"script": script}
+			if len(errs) != len(want) {
+				res.stat("recovery-loc-error-count-differs")
+				continue
+			}
+			for i, e := range errs {
+				var pe *parser.ParseError
+				var se *goerrors.Error
+				hasPE, hasSE := errors.As(e, &pe), errors.As(e, &se)
+				if hasPE && pe.Line > 0 {
+					if pe.Line != want[i].line || (want[i].col > 0 && pe.Column != want[i].col) {
+						res.fail("recovery-error-position", "a recovery error's own line / column is not the start of the offending token of its statement", wit,
+							map[string]any{"error_index": i, "got": fmt.Sprintf("%d:%d", pe.Line, pe.Column), "want_line": want[i].line, "want_column": want[i].col})
+						break
+					}
+					if hasSE && se.Location.Line > 0 && (se.Location.Line != pe.Line || se.Location.Column != pe.Column) {
+						res.fail("recovery-error-two-locations", "a recovery error and the structured error it wraps name different places", wit,
+							map[string]any{"error_index": i, "parse_error": fmt.Sprintf("%d:%d", pe.Line, pe.Column), "wrapped": fmt.Sprintf("%d:%d", se.Location.Line, se.Location.Column)})
+						break
+					}
+				}
+				if hasSE && se.Location.Line > 0 && (se.Location.Line != want[i].line || (want[i].col > 0 && se.Location.Column != want[i].col)) {
+					res.fail("recovery-error-position", "the structured error of a recovery error is not located at the offending token of its statement", wit,
+						map[string]any{"error_index": i, "got": fmt.Sprintf("%d:%d", se.Location.Line, se.Location.Column), "want_line": want[i].line, "want_column": want[i].col})
+					break
+				}
+			}
 		}
 	}
 	// (4) the location does not depend on what else is converted or parsed meanwhile: a conversion result that is held
